@@ -200,7 +200,9 @@ def seq (impl : String) : P Verdict := do
 /-- `C16.lang <value>` — `get_highest_quality_language` -/
 def langOp (impl : String) : P Verdict := do
   let v ← bytes
-  let out := optHex (highestLanguage v)
+  let out := match highestLanguage? v with
+    | some r => optHex r
+    | none => "OUTSIDE-MODEL"
   pure (verdictOf impl out none [] (if out == "~" then "lang:none" else "lang:some"))
 
 def showFields (r : Option (List Field)) : String :=
